@@ -16,7 +16,7 @@ ASSUMPTIONS = [
     "the strict reader (C02's specification) judges the repaired file; the document an edit script denotes is computed by the generator on the object model (pdfgen), independently of fix-qdf and of its model",
     "QDF files above 150 kB are not used (the extracted list-based reader and model are slow on them)",
     "edit scripts: byte insertions/deletions inside stream data, key insertion/change/removal in top-level dictionaries (also of object-stream members), comments/blank lines, stale numbers in the parts fix-qdf regenerates, appended objects; renumbering edits (deleting objects) are outside the manual's contract and not generated",
-    "known findings C17-F1/C17-F2 (marker text inside data) are re-observed on dedicated inputs and excluded from the other generators",
+    "known findings C17-F1/F2 (marker text inside data) are re-observed on dedicated inputs; F3 (--newline-before-endstream with object streams) and F4 (--preserve-unreferenced keeps original object streams) when the option sample contains them; files of these classes are not used as bases for edit scripts",
 ]
 
 MAXSIZE = 150000
@@ -598,6 +598,9 @@ def witness_files(wd):
     q = os.path.join(wd, "c17_w_nbe.qdf")
     common.run_qpdf(["--static-id", "--qdf", "--object-streams=generate", "--newline-before-endstream", os.path.join(filecheck.CORPUS_DIR, "minimal.pdf"), q])
     out.append(("c17_w_nbe", open(q, "rb").read() if os.path.exists(q) else b"", "qpdf --static-id --qdf --object-streams=generate --newline-before-endstream qpdf/qtest/qpdf/minimal.pdf"))
+    q = os.path.join(wd, "c17_w_preserved.qdf")
+    common.run_qpdf(["--static-id", "--qdf", "--object-streams=generate", "--preserve-unreferenced", os.path.join(filecheck.CORPUS_DIR, "override-compressed-object.pdf"), q])
+    out.append(("c17_w_preserved", open(q, "rb").read() if os.path.exists(q) else b"", "qpdf --static-id --qdf --object-streams=generate --preserve-unreferenced qpdf/qtest/qpdf/override-compressed-object.pdf"))
     q = os.path.join(wd, "c17_w_plain.qdf")
     common.run_qpdf(["--static-id", "--qdf", os.path.join(filecheck.CORPUS_DIR, "minimal.pdf"), q])
     out.append(("c17_w_plain", open(q, "rb").read() if os.path.exists(q) else b"", "qpdf --static-id --qdf qpdf/qtest/qpdf/minimal.pdf"))
@@ -907,7 +910,7 @@ def run(chk):
         have = bytes(int(x) for x in m.group(1).split(";")) if m and m.group(1).strip() else None
         if have != data:
             stale.append({"witness": cname, "made_by": how, "bytes_in_Coq": None if have is None else len(have), "bytes_now": len(data)})
-    chk.count("theorem-witnesses", 4, [("witness", i) for i in range(4 - len(stale))])
+    chk.count("theorem-witnesses", 5, [("witness", i) for i in range(5 - len(stale))])
     if stale:
         chk.violation({"kind": "correspondence-broken", "correspondence": "corr:C17:witness-files", "differing_cases": len(stale), "first_cases": stale,
                        "note": "the byte strings the refutation/example theorems are stated on are no longer what `qpdf --qdf` writes for the "
